@@ -88,6 +88,16 @@ theorem net_own_votes_checked (hwf : WF C) {net : Net} (hr : Reach C net) (hA2 :
   rw [isViewChangeValid_sim peer (net.node i) (by rw [hcfg]; exact hsim)]
   exact h1
 
+/-- **sent votes pass the peers' checks**: every VIEW_CHANGE a correct member has sent — the vote of a
+member that is not the next leader goes out without being logged — passes everything `handleViewChange`
+checks before logging it, at every node of the term (C11, VIEW_CHANGE half, for the messages on the wire;
+`Net.VoteGood`, fourth conjunct of `Net.OutsOK`) -/
+theorem net_sent_votes_checked (hwf : WF C) {net : Net} (hr : Reach C net) (hA2 : TraceA2 net.trace)
+    {i : Nat} (hi : C.honest i = true) (hmi : ∃ m ∈ C.ms, m.id = i)
+    (rs : List Nat) (vc : VCMsg) (hsent : Out.send rs (.viewChange vc) ∈ net.outs i)
+    (peer : Node) (hsim : CfgSim peer.cfg (C.cfg i)) : C11.VoteChecked peer vc :=
+  (reach_blocks hwf hr hA2 i hi hmi).2.2.2.2 rs vc hsent peer hsim
+
 /-! ## non-vacuity: a concrete execution with a view change
 
 Committee {1,2,3,4}, member 4 Byzantine (silent here).  Nobody proposes in view 0; the election
